@@ -354,6 +354,81 @@ def observe_p1(w):
     return p1_obs(p1_run(w["chunks"])[1])
 
 
+# ------------------------------------------------------------------------------------------------ C14 (no exception on noise)
+def make_reader(name):
+    from han import hdlc, dlde
+    if name == "p1":
+        return dlde.ModeDReader()
+    cfg = {"hdlc": (False, False), "hdlc00": (False, False), "hdlc01": (False, True), "hdlc10": (True, False), "hdlc11": (True, True)}[name]
+    return hdlc.HdlcFrameReader(*cfg)
+
+
+def touch_message(m):
+    out = [bool(m.is_valid), H(m.payload), H(m.as_bytes), m.message_type.name]
+    hd = getattr(m, "header", None)
+    if hd is not None:
+        out += [hd.frame_length, H(hd.destination_address), H(hd.source_address), hd.control, hd.header_check_sequence, m.frame_check_sequence]
+    return out
+
+
+def c14_run(w):
+    """returns observables; raises whatever the code under test raises"""
+    import asyncio, warnings
+    warnings.simplefilter("ignore")
+    if w["mode"] == "reader":
+        r = make_reader(w["reader"])
+        out = []
+        for ch in w["chunks"]:
+            for m in r.read(bytes.fromhex(ch)):
+                out.append(touch_message(m))
+        return out
+    from han import meter_connection as mc
+    loop = asyncio.new_event_loop()
+    asyncio.set_event_loop(loop)
+    try:
+        q = asyncio.Queue()
+        cls = mc.SmartMeterMessagePayloadProtocol if w["mode"] == "payload" else mc.SmartMeterMessageProtocol
+        p = cls(q, [make_reader(n) for n in w["readers"]])
+        for ch in w["chunks"]:
+            p.data_received(bytes.fromhex(ch))
+        out = []
+        while not q.empty():
+            x = q.get_nowait()
+            out.append(H(x) if isinstance(x, (bytes, bytearray)) else H(x.as_bytes))
+        return out
+    finally:
+        asyncio.set_event_loop(None)
+        loop.close()
+
+
+def observe_C14(w):
+    try:
+        return c14_run(w)
+    except Exception as e:
+        return "exc:" + exc_signature(e)
+
+
+def judge_C14(w):
+    try:
+        c14_run(w)
+    except Exception as e:
+        return {"signature": "exception:" + exc_signature(e), "detail": f"{type(e).__name__}: {e} ; mode={w['mode']} reader(s)={w.get('reader') or w.get('readers')} chunks={w['chunks']}"}
+    if w.get("expect"):
+        # "remains usable": the clean suffix must still come through (C16's guarantee)
+        r = make_reader(w["reader"])
+        got = []
+        for ch in w["chunks"]:
+            got += [(H(m.as_bytes), bool(m.is_valid)) for m in r.read(bytes.fromhex(ch))]
+        idx = 0
+        for e in w["expect"]:
+            while idx < len(got) and not (got[idx][0] == e and got[idx][1]):
+                idx += 1
+            if idx == len(got):
+                return {"signature": "reader-unusable-after-noise", "detail": f"clean message {e[:40]} not delivered after the noise; chunks={w['chunks']}"}
+            idx += 1
+    return None
+
+
 # ------------------------------------------------------------------------------------------------ dispatch
 def observe(prop, w):
     fn = globals().get("observe_" + prop + ("_" + w["sub"] if w.get("sub") else ""))
